@@ -85,7 +85,7 @@ class WinObservation:
 
     compare_wf = False
 
-    def __init__(self, d, ts, dump_spw, win_freqs, chan_width):
+    def __init__(self, d, ts, dump_spw, win_freqs, chan_width, dump_sub=None):
         import katpoint
         self.d = d
         ts = np.asarray(ts, dtype=float)
@@ -96,7 +96,7 @@ class WinObservation:
         assert np.all(g4 == np.round(g4)), 'timestamps are not on the quarter-dump grid'
         self.g4 = [int(x) for x in g4]
         self.dump_spw = [int(x) for x in dump_spw]
-        self.dump_sub = [0] * self.T
+        self.dump_sub = [0] * self.T if dump_sub is None else [int(x) for x in dump_sub]
         self.kants = [list(sa.ants) for sa in d.subarrays]
         self.cps = [[(str(a), str(b)) for a, b in sa.corr_products] for sa in d.subarrays]
         w = float(chan_width) / 4
@@ -182,6 +182,9 @@ class WinFixture:
     """One opened multi-window data set + what was stored (same attribute names as c01.Fixture where shared code needs
     them: impl reads, c01files.expected, compare_sensors)."""
 
+    sig_prefix = 'fmt=v2;windows'
+    with_sensors = True
+
     def __init__(self, spec, ctx, tag='c01win'):
         import katdal
         from fixtures import c01files as cf
@@ -218,6 +221,7 @@ class WinFixture:
                                      self.win_centre, self.written_centres)
                 raise AssertionError('windows differ from the written centre frequencies')
             self.dump_spw = [self.win_centre.index(float(c)) for c in self.dump_centre]
+            self.dump_sub = [0] * T
             # documented axis of every written centre frequency (spec side of wire_1003), and the reader's windows
             cases = [[1003, [2, [q(c + 4200e6 if spec['old'] else c), q(CW * F), F, int(bool(spec['old'])), codes(''), [], [], []]]]
                      for c in self.win_centre]
@@ -300,10 +304,17 @@ def gen_wselect(rng, fx, cur):
         other = [k for k in range(ob.nspw()) if k != cur[0]]
         spw = rng.choice(other) if other and rng.random() < 0.85 else cur[0]
         call = [('spw', spw, c02x.xcore([11, spw]), 'int')]
+        if ob.nsub() > 1 and (ob.nspw() == 1 or rng.random() < 0.6):
+            # another subarray (alone or together with the window)
+            sub = rng.choice([k for k in range(ob.nsub()) if k != cur[1]] + ([cur[1]] if rng.random() < 0.15 else []))
+            sa = ('subarray', sub, c02x.xcore([11, sub]), 'int')
+            call = [sa] if (ob.nspw() == 1 or rng.random() < 0.5) else rng.sample([call[0], sa], 2)
+            cur = [cur[0] if len(call) == 1 else spw, sub]
+            spw = cur[0]
         if rng.random() < 0.4:
             k = rng.choice(c02x.TIME + c02x.FREQ + c02x.CORR)
             v, w, f = c02x.gen_xcriterion(rng, ob, k, spw, cur[1])
-            call.insert(rng.randint(0, 1), (k, v, w, f))
+            call.insert(rng.randint(0, len(call)), (k, v, w, f))
         if rng.random() < 0.2:
             reset = rng.choice(['', 'T', 'F', 'TFB', 'auto'])
             call.append(('reset', reset, c02x.xcore([10, codes(reset)]), 'reset'))
@@ -493,7 +504,7 @@ def compare_history_w(ctx, fx, ops, log, mouts, hid, note=True):
     acq_conv = []
     sel_state = 'all'
     nwin = len(fx.win_centre)
-    pre = 'fmt=%s;windows' % fmt
+    pre = fx.sig_prefix
 
     def case(n):
         return dict(hid=hid, fail_at=n, spec=fx.spec, ops=descs[:n + 1])
@@ -558,14 +569,18 @@ def compare_history_w(ctx, fx, ops, log, mouts, hid, note=True):
             # of the active window, and freqs are the documented frequencies of the selected channels at THAT centre
             spw = ob['spw']
             active = fx.win_centre[spw] if 0 <= spw < nwin else None
-            foreign = [i for i in ob['dumps'] if not (0 <= i < fx.T) or float(fx.dump_centre[i]) != active]
+            foreign = [i for i in ob['dumps'] if not (0 <= i < fx.T) or float(fx.dump_centre[i]) != active
+                       or fx.dump_sub[i] != ob['sub']]
             if foreign:
                 ctx.disagree(pre + ';attr=dumps;what=recorded_with_another_window;after=' + phase, case(n),
-                             dict(spw=spw, centre_mhz=None if active is None else active / 1e6, dumps=ob['dumps'],
-                                  recorded_mhz=[float(fx.dump_centre[i]) / 1e6 for i in ob['dumps'] if 0 <= i < fx.T]),
-                             dict(spw=s_spw, dumps=p_dumps),
-                             'selected dumps %r were recorded with another centre frequency than that of the active '
-                             'spectral window: freqs / channels do not describe them' % foreign[:8], spec=p_dumps)
+                             dict(spw=spw, subarray=ob['sub'], centre_mhz=None if active is None else active / 1e6,
+                                  dumps=ob['dumps'],
+                                  recorded_mhz=[float(fx.dump_centre[i]) / 1e6 for i in ob['dumps'] if 0 <= i < fx.T],
+                                  recorded_subarray=[fx.dump_sub[i] for i in ob['dumps'] if 0 <= i < fx.T]),
+                             dict(spw=s_spw, subarray=s_sub, dumps=p_dumps),
+                             'selected dumps %r were recorded with another centre frequency / product ordering than that '
+                             'of the active spectral window / subarray: freqs / channels / corr_products do not describe '
+                             'them' % foreign[:8], spec=p_dumps)
                 return          # shape, timestamps, sensors, reads ... of this selection follow from it
             elif ob['dumps'] and ob['channels'] and all(0 <= c < fx.F for c in ob['channels']):
                 bad = [i for i in ob['dumps']
@@ -608,9 +623,10 @@ def compare_history_w(ctx, fx, ops, log, mouts, hid, note=True):
                 if not same:
                     ctx.disagree(pre + ';attr=sensor:%s;what=differs' % nm, case(n), got.tolist(), exp.tolist(),
                                  'per-dump array %s is not that of the selected dumps' % nm)
-            c01.compare_sensors(ctx, fx, case(n), ob, mts, tsmap, mdumps,
-                                [unq(p) for p in mcache], [unq(p) for p in meval], [unq(p) for p in msynth])
-            nwin_dumps = sum(1 for w in fx.dump_spw if w == s_spw)
+            if fx.with_sensors:
+                c01.compare_sensors(ctx, fx, case(n), ob, mts, tsmap, mdumps,
+                                    [unq(p) for p in mcache], [unq(p) for p in meval], [unq(p) for p in msynth])
+            nwin_dumps = sum(1 for w, b in zip(fx.dump_spw, fx.dump_sub) if w == s_spw and b == s_sub)
             full = (mshape == [nwin_dumps, fx.F, fx.B])
             empty = 0 in mshape
             sel_state = 'all' if full else 'empty' if empty else 'part'
@@ -736,7 +752,10 @@ CORPUS = [
 
 
 def run_corpus(ctx):
-    fx = WinFixture(dict(CORPUS_SPEC), ctx, tag='c01winc')
+    try:
+        fx = WinFixture(dict(CORPUS_SPEC), ctx, tag='c01winc')
+    except (IndexError, ValueError, KeyError, TypeError, AttributeError, ZeroDivisionError) as e:
+        return open_failed(ctx, c01.OpenFailed(dict(CORPUS_SPEC), e), dict(kind='win_corpus', j=-1))
     try:
         report_open(ctx, fx, dict(kind='win_corpus', j=-1))
         for j, script in enumerate(CORPUS):
@@ -746,14 +765,14 @@ def run_corpus(ctx):
         fx.close()
 
 
-def open_failed(ctx, e, hid):
+def open_failed(ctx, e, hid, prefix='fmt=v2;windows'):
     if isinstance(e, WindowsDiffer):
-        ctx.disagree('fmt=v2;windows;attr=spectral_windows;what=not_the_written_centre_frequencies',
-                     dict(hid=hid, fail_at=0, spec=e.spec, ops=['open']), str(e), sorted(set(c for _, c in e.spec['retunes'])),
+        ctx.disagree(prefix + ';attr=spectral_windows;what=not_the_written_centre_frequencies',
+                     dict(hid=hid, fail_at=0, spec=e.spec, ops=['open']), str(e), 'one window per written centre frequency',
                      'the spectral windows of the data set are not centred on the centre frequencies the RFE was tuned to '
-                     '(one window per distinct value)')
+                     '(one window per distinct value; one subarray per product ordering)')
     else:
-        ctx.disagree('fmt=v2;windows;what=open_raises;exc=%s' % type(e.exc).__name__,
+        ctx.disagree(prefix + ';what=open_raises;exc=%s' % type(e.exc).__name__,
                      dict(hid=hid, fail_at=0, spec=e.spec, ops=['open']), repr(e.exc), 'opens',
                      'opening a valid multi-window file raised', spec='opens')
 
@@ -783,8 +802,15 @@ def run(ctx):
 
 
 def replay(ctx, hid):
+    if hid.get('kind') == 'cat':
+        from props import c01cat
+        return c01cat.replay(ctx, hid)
     if hid.get('kind') == 'win_corpus':
-        fx = WinFixture(dict(CORPUS_SPEC), ctx, tag='c01winc')
+        try:
+            fx = WinFixture(dict(CORPUS_SPEC), ctx, tag='c01winc')
+        except (IndexError, ValueError, KeyError, TypeError, AttributeError, ZeroDivisionError) as e:
+            open_failed(ctx, c01.OpenFailed(dict(CORPUS_SPEC), e), hid)
+            return True
         try:
             if hid['j'] < 0:
                 return report_open(ctx, fx, hid)
